@@ -16,10 +16,16 @@ import (
 
 var c17Hosts []string
 
+// c17Systematic is the number of hand-picked hosts (PSL classes and the
+// hostile vocabulary) that get the systematic treatment; they are the first
+// entries of c17Hosts.
+var c17Systematic int
+
 func c17Setup(env *core.Env) {
 	c17Hosts = append(c17Hosts, gen.PSLHosts()...)
 	c17Hosts = append(c17Hosts, gen.Hosts...)
 	c17Hosts = append(c17Hosts, "1.2.3.4", "255.255.255.255", "0.0.0.0", "localhost", "a", "a-b.c-d.com", "xn--80ak6aa92e.com", "1.com", "a.b.c.d.e.f.g.com")
+	c17Systematic = len(c17Hosts)
 	corp := gen.LoadCorpus(env.RepoDir)
 	c17Hosts = append(c17Hosts, corp.Hosts...)
 }
@@ -232,16 +238,40 @@ func init() {
 	core.Register(&core.Prop{
 		ID:    "C17",
 		Level: "exploration",
-		Rule: "per case 16 URL requests scheme://host[:port] followed by nothing, /path or ?query (paths and queries containing //, :, ?, @), optionally with #fragment (never directly after the host), no userinfo, hosts from every PSL class (ICANN multi-level, wildcard and exception rules, private suffixes, unlisted TLDs, IPv4, single labels) and the 58 k hosts of testdata/hosts, sometimes mixed-case or longer than 4 KiB, with an empty, same-site or foreign source URL; plus 8 NewRequestForHostname calls and the real URLs of testdata/requests.json; " +
+		Rule: "systematic part: every hand-picked host (8 names around each of 40 public suffixes of every PSL class, the hostile vocabulary, IPv4, single labels) x 3 port forms x 19 paths x 11 queries x with/without fragment x 3 source situations; sampled part: per case 16 URL requests scheme://host[:port] followed by nothing, /path or ?query (paths and queries containing //, :, ?, @), optionally with #fragment (never directly after the host), no userinfo, hosts from every PSL class (ICANN multi-level, wildcard and exception rules, private suffixes, unlisted TLDs, IPv4, single labels) and the 58 k hosts of testdata/hosts, sometimes mixed-case or longer than 4 KiB, with an empty, same-site or foreign source URL; plus 8 NewRequestForHostname calls and the real URLs of testdata/requests.json; " +
 			"oracle = net/url + publicsuffix.EffectiveTLDPlusOne, third-party symmetry under swapping; non-trivial = request whose registrable domain differs from its host or that is third-party; distinct by (url, source)",
 		Assumptions: []string{
 			"URLs that net/url rejects are outside the contract (counted inconclusive)",
 			"hostnames for NewRequestForHostname are lower-case and have no empty labels",
 		},
 		Setup: c17Setup,
-		Cases: func(t core.Tier) int { return sizes[t] },
+		Cases: func(t core.Tier) int { return len(gen.PSLHosts()) + len(gen.Hosts) + 9 + sizes[t] },
 		Run: func(c *core.Ctx, idx int) {
 			corp := gen.LoadCorpus(c.Env.RepoDir)
+			if idx < c17Systematic {
+				// Systematic block: one hand-picked host (every PSL class) x
+				// every tail shape x three source situations.
+				h := c17Hosts[idx]
+				for _, port := range []string{"", ":8080", ":"} {
+					for _, p := range c17Paths {
+						for _, q := range c17Queries {
+							for _, f := range []string{"", "#frag"} {
+								if p == "" && q == "" && f != "" {
+									continue // fragment directly after the host
+								}
+								u := "https://" + h + port + p + q + f
+								c17CheckRequest(c, u, "")
+								c17CheckRequest(c, u, "http://static."+h+"/")
+								c17CheckRequest(c, u, "http://"+c17Hosts[(idx*31+len(p)+len(q))%c17Systematic]+"/x")
+							}
+						}
+					}
+				}
+				c17CheckHostname(c, strings.ToLower(h))
+				c.Event("systematic_hosts", 1)
+
+				return
+			}
 			for k := 0; k < 16; k++ {
 				h := c17Host(c)
 				u := c17URL(c, h)
